@@ -703,7 +703,8 @@ class client( object ):
         """Receive data (if any) and source address, if available within timeout."""
         addr			= self.addr
         if self.addr_connected:
-            rcvd		= network.recv( self.conn, timeout=timeout )
+            rcvd		= network.recv( self.conn, timeout=timeout,
+                                        **( dict( maxlen=64*1024 ) if self.udp else {} )) # UDP: whole datagram
         else:
             rcvd,addr		= network.recvfrom( self.conn, timeout=timeout )
         return rcvd,addr
